@@ -234,6 +234,8 @@ Atomic<'a, ItemType, BUFFER_SIZE, MAX_STREAMS> {
 
     #[inline(always)]
     fn drop_resources(&self, stream_id: u32) {
+        // discard the events this listener left unconsumed -- otherwise the next stream to reuse `stream_id` would yield them
+        while self.consume(stream_id).is_some() {}
         self.streams_manager.report_stream_dropped(stream_id);
     }
 }
